@@ -185,58 +185,88 @@ func min(a, b int) int {
 	return b
 }
 
-// Compare checks a decoded tree against the expected value of packet pk; it returns "" or a
-// description of the first difference. Names are matched convention-insensitively; a missing /
-// nil / empty string or list are the same logical value (the wire cannot tell them apart).
-func (r *RProgram) Compare(pk *RPacket, want *Value, got *Tree) string {
-	return r.cmpObj(pk.Name, pk, want, got)
+// Diff is the first difference between a decoded tree and the expected value.
+type Diff struct {
+	Path   string
+	Field  *RField // nil when the difference is about the object itself
+	Class  string  // stable class of the difference (part of signatures)
+	Detail string
 }
 
-func (r *RProgram) cmpObj(path string, pk *RPacket, want *Value, got *Tree) string {
-	if got == nil || got.Kind != 'P' {
-		if got != nil && got.Kind == 'n' {
-			return path + ": object missing (nil)"
-		}
-		return path + ": not an object"
+func (d *Diff) String() string {
+	if d == nil {
+		return ""
 	}
-	if Norm(got.Packet) != Norm(pk.Name) {
-		return fmt.Sprintf("%s: decoded as packet %s, expected %s", path, got.Packet, pk.Name)
+	return d.Path + ": " + d.Detail
+}
+
+// Where describes the field kind for a signature.
+func (d *Diff) Where() string {
+	if d.Field == nil {
+		return "object"
+	}
+	k := d.Field.Kind.String()
+	if d.Field.Kind == KLenOf || d.Field.Kind == KChecksum {
+		k += " " + d.Field.Type
+	}
+	if d.Field.Repeat {
+		k = "repeated " + k
+	}
+	return k
+}
+
+// Compare checks a decoded tree against the expected value of packet pk; it returns nil or the first
+// difference. Names are matched convention-insensitively; a missing / nil / empty string or list are
+// the same logical value (the wire cannot tell them apart).
+func (r *RProgram) Compare(pk *RPacket, want *Value, got *Tree) *Diff {
+	return r.cmpObj(pk.Name, nil, pk, want, got)
+}
+
+func (r *RProgram) cmpObj(path string, f *RField, pk *RPacket, want *Value, got *Tree) *Diff {
+	if got == nil || got.Kind != 'P' {
+		if got == nil || got.Kind == 'n' {
+			return &Diff{path, f, "object missing (nil)", "object missing (nil)"}
+		}
+		return &Diff{path, f, "not an object", "not an object"}
+	}
+	if Norm(got.Packet) != Norm(pk.Name) && !(pk.Inline && strings.HasSuffix(Norm(got.Packet), Norm(pk.Name))) {
+		return &Diff{path, f, "decoded as another packet type", fmt.Sprintf("decoded as packet %s, expected %s", got.Packet, pk.Name)}
 	}
 	idx := map[string]*Tree{}
 	for i, n := range got.Names {
 		idx[Norm(n)] = got.Fields[i]
 	}
-	for i, f := range pk.Fields {
-		g := idx[Norm(f.Name)]
-		if d := r.cmpField(path+"."+f.Name, f, want.Fields[i], g, false); d != "" {
+	for i, sf := range pk.Fields {
+		g := idx[Norm(sf.Name)]
+		if d := r.cmpField(path+"."+sf.Name, sf, want.Fields[i], g, false); d != nil {
 			return d
 		}
 	}
-	return ""
+	return nil
 }
 
-func (r *RProgram) cmpField(path string, f *RField, want *Value, got *Tree, elem bool) string {
+func (r *RProgram) cmpField(path string, f *RField, want *Value, got *Tree, elem bool) *Diff {
 	if f.Repeat && !elem {
 		var gl []*Tree
 		if got != nil && got.Kind == '[' {
 			gl = got.List
 		} else if got != nil && got.Kind != 'n' {
-			return path + ": not a list"
+			return &Diff{path, f, "not a list", "not a list"}
 		}
 		if len(gl) != len(want.List) {
-			return fmt.Sprintf("%s: %d elements, expected %d", path, len(gl), len(want.List))
+			return &Diff{path, f, "element count", fmt.Sprintf("%d elements, expected %d", len(gl), len(want.List))}
 		}
 		for i := range gl {
-			if d := r.cmpField(fmt.Sprintf("%s[%d]", path, i), f, want.List[i], gl[i], true); d != "" {
+			if d := r.cmpField(fmt.Sprintf("%s[%d]", path, i), f, want.List[i], gl[i], true); d != nil {
 				return d
 			}
 		}
-		return ""
+		return nil
 	}
 	switch f.Kind {
 	case KInt, KLenOf, KChecksum, KChar:
 		if got == nil {
-			return path + ": member missing"
+			return &Diff{path, f, "member missing", "member missing from the decoded object"}
 		}
 		var gb uint64
 		switch got.Kind {
@@ -244,31 +274,38 @@ func (r *RProgram) cmpField(path string, f *RField, want *Value, got *Tree, elem
 			if strings.HasPrefix(got.Int, "-") {
 				n, err := strconv.ParseInt(got.Int, 10, 64)
 				if err != nil {
-					return path + ": bad integer " + got.Int
+					return &Diff{path, f, "bad dump", "bad integer " + got.Int}
 				}
 				gb = uint64(n)
 			} else {
 				n, err := strconv.ParseUint(got.Int, 10, 64)
 				if err != nil {
-					return path + ": bad integer " + got.Int
+					return &Diff{path, f, "bad dump", "bad integer " + got.Int}
 				}
 				gb = n
 			}
 		case 'c':
 			gb = got.Bits
+		case 's':
+			// a char member carried as a one-character string
+			if f.Kind == KChar && len(got.Str) == 1 {
+				gb = uint64(got.Str[0])
+			} else {
+				return &Diff{path, f, "wrong type", "a string where an integer is expected"}
+			}
 		default:
-			return fmt.Sprintf("%s: not an integer (%c)", path, got.Kind)
+			return &Diff{path, f, "wrong type", fmt.Sprintf("not an integer (%c)", got.Kind)}
 		}
 		w := uint(8 * widthOf(f.Type))
 		if w < 64 {
 			gb &= (uint64(1) << w) - 1
 		}
 		if gb != want.Bits {
-			return fmt.Sprintf("%s: value %#x, expected %#x", path, gb, want.Bits)
+			return &Diff{path, f, "value", fmt.Sprintf("value %#x, expected %#x", gb, want.Bits)}
 		}
 	case KFloat:
 		if got == nil || got.Kind != 'f' {
-			return path + ": not a float"
+			return &Diff{path, f, "wrong type", "not a float"}
 		}
 		var wf float64
 		if f.Type == "f32" {
@@ -278,29 +315,33 @@ func (r *RProgram) cmpField(path string, f *RField, want *Value, got *Tree, elem
 		}
 		gf := math.Float64frombits(got.Bits)
 		if math.IsNaN(wf) && math.IsNaN(gf) {
-			return ""
+			return nil
 		}
 		if math.Float64bits(wf) != got.Bits {
-			return fmt.Sprintf("%s: float %v, expected %v", path, gf, wf)
+			return &Diff{path, f, "value", fmt.Sprintf("float %v, expected %v", gf, wf)}
 		}
 	case KFixStr, KDynStr:
 		gs := ""
 		if got != nil && got.Kind == 's' {
 			gs = got.Str
 		} else if got != nil && got.Kind != 'n' {
-			return path + ": not a string"
+			return &Diff{path, f, "wrong type", "not a string"}
 		}
 		if gs != want.Str {
-			return fmt.Sprintf("%s: string %q, expected %q", path, gs, want.Str)
+			cls := "value"
+			if f.Kind == KFixStr && strings.TrimSpace(strings.Trim(gs, "\x00 0")) == strings.TrimSpace(strings.Trim(want.Str, "\x00 0")) {
+				cls = "padding not trimmed as declared"
+			}
+			return &Diff{path, f, cls, fmt.Sprintf("string %q, expected %q", gs, want.Str)}
 		}
 	case KObj:
-		return r.cmpObj(path, f.Packet, want, got)
+		return r.cmpObj(path, f, f.Packet, want, got)
 	case KMatch:
 		tp := r.Packets[want.Packet]
 		if tp == nil {
-			return ""
+			return nil
 		}
-		return r.cmpObj(path, tp, want, got)
+		return r.cmpObj(path, f, tp, want, got)
 	}
-	return ""
+	return nil
 }
